@@ -37,46 +37,71 @@ def par_jvms():
     return 4, 4
 
 
-# ------------------------------------------------------------------------------------------- design check
+# ------------------------------------------------------------------------------------------- TLC jobs
 
-def design_check(ctx):
+def design_jobs(ctx):
     quick = ctx.tier == "quick"
-    jobs = [("MCAreaGridDraw.cfg", "builder: every drawing of a triangle (G=1), all styles/mutations: bag conserved, "
-                                   "verdict is a function of the ways", True),
-            ("MCAreaGridThm2.cfg", "A-layer theorems, all pairs of rect/tri/dia/dense rect on G=2", False),
-            ("MCAreaGridThm3.cfg", "A-layer theorems + Judge accepts reference / rejects spoiled, all pairs of rect/dia on G=3", False)]
-    if not quick:
-        jobs = [("MCAreaGridDrawT.cfg", "builder: every drawing of the unit square and the triangles (G=1)", True),
+    if quick:
+        return [("MCAreaGridDraw.cfg", "builder: every drawing of a triangle (G=1), all mutations: bag conserved, verdict is a "
+                                       "function of the ways", True),
                 ("MCAreaGridThm2.cfg", "A-layer theorems, all pairs of rect/tri/dia/dense rect on G=2", False),
-                ("MCAreaGridThm3T.cfg", "A-layer theorems + Judge reference, all pairs of rect/dia/L/dense rect on G=3, 5 mutations", False),
-                ("MCAreaGridThm5T.cfg", "A-layer theorems + Judge reference, nested triples of rectangles on G=5", False)]
+                ("MCAreaGridThm3.cfg", "A-layer theorems + Judge accepts reference / rejects spoiled, all pairs of rect/dia on G=3", False),
+                ("MCAreaGridTile.cfg", "tiling theorem: chains of 2 and 3 copies of every motif of <= 2 rings (kite/dia) on G=4", False)]
+    return [("MCAreaGridDrawT.cfg", "builder: every drawing of the unit square and the triangles (G=1), all styles/mutations", True),
+            ("MCAreaGridThm2.cfg", "A-layer theorems, all pairs of rect/tri/dia/dense rect on G=2", False),
+            ("MCAreaGridThm3T.cfg", "A-layer theorems + Judge accepts reference / rejects spoiled, all pairs of rect/dia/L on G=3", False),
+            ("MCAreaGridThm7.cfg", "A-layer theorems + Judge reference on chains of up to 4 nested rectangles (hole in island) on G=7", False),
+            ("MCAreaGridTile.cfg", "tiling theorem: chains of 2 and 3 copies of every motif of <= 2 rings (kite/dia) on G=4", False)]
+
+
+def export_plan(ctx):
+    """(cfg, behaviours, tag); every behaviour yields Drawings (= 4; deep nesting 3, tiles 2) cases"""
+    plan = export_plan_full(ctx)
+    scale = float(os.environ.get("VERIF_C10_SCALE", "1") or "1")      # development only: fewer behaviours
+    return [(cfg, max(8, int(n * scale)), tag) for cfg, n, tag in plan]
+
+
+def export_plan_full(ctx):
+    if ctx.tier == "quick":
+        return [("GenAreaGrid4.cfg", 230, "g4"), ("GenAreaGrid4N.cfg", 130, "g4n"), ("GenAreaGrid4T.cfg", 130, "g4t"),
+                ("GenAreaGrid7N.cfg", 70, "g7n"), ("GenAreaGridTile4.cfg", 40, "tile4")]
+    return [("GenAreaGrid4.cfg", 3500, "g4"), ("GenAreaGrid4N.cfg", 2000, "g4n"), ("GenAreaGrid4T.cfg", 2000, "g4t"),
+            ("GenAreaGrid5.cfg", 1500, "g5"), ("GenAreaGrid5N.cfg", 1000, "g5n"), ("GenAreaGrid5T.cfg", 1000, "g5t"),
+            ("GenAreaGrid7N.cfg", 800, "g7n"), ("GenAreaGridTile4.cfg", 250, "tile4")]
+
+
+def run_tlc_jobs(ctx):
+    """design checks and case exports side by side (independent TLC processes); returns {tag: TlcResult of the export}"""
+    rnd = random.Random(ctx.seed)
     nj, nw = par_jvms()
+    jobs = [("mc", j) for j in design_jobs(ctx)] + [("gen", j + (rnd.randrange(1, 1 << 30),)) for j in export_plan(ctx)]
 
     def one(job):
-        cfg, lab, cov = job
-        return job, vlib.tlc("AreaGrid", cfg, workers=nw, coverage=cov, timeout=1500, tag=cfg[:-4])
+        kind, j = job
+        if kind == "mc":
+            cfg, lab, cov = j
+            return job, vlib.tlc("AreaGrid", cfg, workers=nw, coverage=cov, timeout=1500, tag=cfg[:-4])
+        cfg, traces, tag, seed = j
+        per = max(1, (traces + nw - 1) // nw)
+        return job, vlib.tlc("AreaGrid", cfg, workers=nw, simulate=per, depth=600, seed=seed, timeout=1500,
+                             tag="gen_" + tag, keep_out=False)
+    exports = {}
     with ThreadPoolExecutor(max_workers=nj) as ex:
-        for (cfg, lab, cov), r in ex.map(one, jobs):
-            vlib.tlc_ok(r, "AreaGrid design check " + cfg)
-            if cov:
-                vlib.require_actions(r, BUILDER_ACTIONS, "AreaGrid " + cfg)
-            ctx.add_tlc(r, lab)
-
-
-# ------------------------------------------------------------------------------------------- case export
-
-def export_cases(ctx, cfg, traces, seed, tag, workers):
-    """TLC simulation of the case builder; 'traces' behaviours in total.  Returns the CASE payloads in behaviour order."""
-    cap = caps()
-    if cap:
-        workers = max(1, min(workers, cap))
-    per = max(1, (traces + workers - 1) // workers)
-    r = vlib.tlc("AreaGrid", cfg, workers=workers, simulate=per, depth=600, seed=seed, timeout=1500, tag=tag,
-                 keep_out=False)
-    vlib.tlc_ok(r, "AreaGrid case export " + cfg)
-    if not r.cases:
-        raise vlib.ModelFailure("case export %s produced no case" % cfg)
-    return r
+        for (kind, j), r in ex.map(one, jobs):
+            if kind == "mc":
+                cfg, lab, cov = j
+                vlib.tlc_ok(r, "AreaGrid design check " + cfg)
+                if cov:
+                    vlib.require_actions(r, BUILDER_ACTIONS, "AreaGrid " + cfg)
+                ctx.add_tlc(r, lab)
+            else:
+                cfg, traces, tag, seed = j
+                vlib.tlc_ok(r, "AreaGrid case export " + cfg)
+                if not r.cases:
+                    raise vlib.ModelFailure("case export %s produced no case" % cfg)
+                ctx.add_tlc(r, "case export %s (simulation of the case builder, seed %d)" % (cfg, seed))
+                exports[tag] = r.cases
+    return exports
 
 
 def seg_key(c):
@@ -132,7 +157,7 @@ def variants_for(c, k, thorough):
 # ------------------------------------------------------------------------------------------- real runs
 
 def run_real(ctx, cases):
-    binary = vlib.build("area_replay", "area_replay.cpp")
+    binary = vlib.build("area_replay", "area_replay.cpp", opt="-O0")
     inp = [{"id": c["id"], "ways": c["ways"], "roles": c["roles"], "variants": c["variants"],
             **({"tile": {"n": c["tile"]["n"], "dx": c["tile"]["dx"]}} if "tile" in c else {})} for c in cases]
     res = vlib.replay_cases(binary, inp, timeout=1800, nproc=min(8, vlib.NCPU))
@@ -151,7 +176,7 @@ def records_of(c, r):
         mgr = entry == "mgr"
         obs = {"entry": "way" if (entry == "way" or (mgr and single)) else "rel", "mgr": mgr,
                "pr": cfg in ("pr", "prne"), "ne": cfg in ("ne", "prne"), "ret": run["ret"], "area": run["area"],
-               "st": run["st"], "rep": {k: v for k, v in run["rep"].items() if k != "on"}}
+               "st": run["st"], "rep": {k: v for k, v in run["rep"].items() if k != "on"}, "why": run.get("why", "")}
         rec = recs.setdefault(json.dumps(run["rings"]), {"rings": run["rings"], "runs": {}, "variants": []})
         rec["runs"].setdefault(json.dumps(obs, sort_keys=True), obs)
         rec["variants"].append(run["v"])
@@ -172,8 +197,9 @@ def judge(ctx, records, tag):
     os.makedirs(RUNDIR, exist_ok=True)
     # same group adjacent, same observation kind adjacent inside a group (invariance compares neighbours)
     records.sort(key=lambda r: (r["grp"], r["id"]))
-    nj, nw = par_jvms()
-    batch = 600 if ctx.tier == "quick" else 2500
+    # the trace spec is a linear counter: parallelism = several single-worker TLC processes on separate files
+    nj = 2 if caps() else max(2, vlib.NCPU // 2)
+    batch = max(150, min(3000, (len(records) + nj - 1) // nj))
     # never split a group over two batches
     batches, cur = [], []
     for i, r in enumerate(records):
@@ -190,7 +216,7 @@ def judge(ctx, records, tag):
         with open(path, "w") as fh:
             for r in b:
                 fh.write(json.dumps({k: v for k, v in r.items() if k != "variants"}, separators=(",", ":")) + "\n")
-        res = vlib.tlc("AreaGridTrace", "AreaGridTrace.cfg", workers=nw, env={"TRACE": path}, timeout=1700,
+        res = vlib.tlc("AreaGridTrace", "AreaGridTrace.cfg", workers=1, env={"TRACE": path}, timeout=1700, java_opts=["-Xmx3g"],
                        tag="%s_%d" % (tag, bi), keep_out=False)
         vlib.tlc_ok(res, "AreaGridTrace " + tag)
         if len(res.cases) != len(b):
@@ -215,8 +241,11 @@ def klass(c):
 
 
 def signature(rec, fails):
-    return "fails=%s ways=%s roles=%s" % (",".join(sorted(fails)), json.dumps(rec["ways"], separators=(",", ":")),
-                                          json.dumps(rec["roles"], separators=(",", ":")))
+    """failing requirement(s), the library's own explanation of a silent rejection (label logged by the harness), chain, input"""
+    why = ",".join(sorted(set(r["why"] for r in rec["runs"] if r.get("why")))) or "-"
+    tile = ("n%d/touch%d" % (rec["tile"]["n"], rec["tile"]["ntouch"])) if "tile" in rec else "-"
+    return "fails=%s why=%s tile=%s ways=%s roles=%s" % (",".join(sorted(fails)), why, tile, json.dumps(rec["ways"], separators=(",", ":")),
+                                                         json.dumps(rec["roles"], separators=(",", ":")))
 
 
 def process(ctx, cases, tag):
@@ -246,39 +275,67 @@ def process(ctx, cases, tag):
     return n
 
 
+def tile_cases(ctx, raw, prefix):
+    """a motif exported with its chain lengths -> one case per (motif drawing, chain length)"""
+    quick = ctx.tier == "quick"
+    cases, seen = [], set()
+    motifs = {}
+    for c in raw:
+        ident = json.dumps([c["ways"], c["roles"]])
+        if ident in seen:
+            continue
+        seen.add(ident)
+        mk = seg_key(c)
+        motifs.setdefault(mk, 0)
+        motifs[mk] += 1
+        tiles = sorted(c["tiles"], key=lambda t: t["n"])
+        if quick:
+            # every motif with its longest chain once, the other drawings with short chains
+            tiles = [tiles[-1], tiles[1 % len(tiles)]] if motifs[mk] == 1 else tiles[:2]
+        for t in tiles:
+            cases.append({"id": "%s-%d" % (prefix, len(cases)), "grp": "%s-%d" % (prefix, len(cases)), "G": c["G"], "ways": c["ways"],
+                          "roles": c["roles"], "exp": c["exp"], "mut": c["mut"], "style": c["style"], "nrings": len(c["rings"]),
+                          "tile": {"n": t["n"], "dx": t["dx"], "ntouch": t["ntouch"]},
+                          "variants": ["rel/pr/a/s", "rel/def/c/u", "rel/ne/b/s", "mgr/def/e/s"]})
+    return cases
+
+
 def run(ctx):
     quick = ctx.tier == "quick"
-    design_check(ctx)
-    rnd = random.Random(ctx.seed)
-    nj, nw = par_jvms()
-    plans = [("GenAreaGrid4.cfg", 450 if quick else 9000, "g4")]
-    if not quick:
-        plans.append(("GenAreaGrid5.cfg", 4000, "g5"))
+    with ThreadPoolExecutor(max_workers=1) as bex:
+        bfut = bex.submit(lambda: vlib.build("area_replay", "area_replay.cpp", opt="-O0"))      # compile while TLC runs
+        exports = run_tlc_jobs(ctx)
+        bfut.result()
     allcases = []
-    for cfg, traces, tag in plans:
-        r = export_cases(ctx, cfg, traces, rnd.randrange(1, 1 << 30), "gen_" + tag, nw * (1 if caps() else 2))
-        ctx.add_tlc(r, "case export %s (simulation of the case builder, %d behaviours)" % (cfg, traces))
-        cases = decorate(ctx, r.cases, tag)
+    for tag, raw in sorted(exports.items()):
+        if tag.startswith("tile"):
+            allcases += tile_cases(ctx, raw, tag)
+            continue
+        cases = decorate(ctx, raw, tag)
         for k, c in enumerate(cases):
             c["variants"] = variants_for(c, k, not quick and k % 10 == 0)
         allcases += cases
     nrec = process(ctx, allcases, "main")
     ctx.traces = len(allcases)
     ctx.evaluations = nrec
-    ctx.nontrivial = len(set(json.dumps([c["G"], c["ways"], c["roles"]]) for c in allcases))
+    ctx.nontrivial = len(set(json.dumps([c["G"], c["ways"], c["roles"], c.get("tile")]) for c in allcases))
     kl = {}
     for c in allcases:
-        kl[klass(c)] = kl.get(klass(c), 0) + 1
+        k = ("tiled/" if "tile" in c else "") + klass(c)
+        kl[k] = kl.get(k, 0) + 1
     ctx.extra["cases_by_expected_class"] = kl
     ctx.extra["groups"] = len(set(c["grp"] for c in allcases))
     ctx.extra["real_runs"] = sum(len(c["variants"]) for c in allcases)
-    ctx.rule = ("a case = (ways as point paths, member roles) exported by TLC with its expected verdict; distinct by that pair; "
-                "evaluations = distinct observations (entry point x config class x result) judged by TLC")
+    ctx.extra["max_touching_points"] = max([c["tile"]["ntouch"] for c in allcases if "tile" in c] + [0])
+    ctx.extra["with_inner_rings"] = ctx.extra.get("with_inner_rings", 0)
+    ctx.rule = ("a case = (ways as point paths, member roles[, chain length]) exported by TLC with its expected verdict; distinct by "
+                "that tuple; evaluations = distinct observed ring sets judged by TLC (each with all runs that produced it)")
     seen = set()
     for c in allcases:
-        if klass(c) not in seen:
-            seen.add(klass(c))
-            ctx.sample({k: c[k] for k in ("G", "ways", "roles", "exp", "variants")}, cap=8)
+        k = ("tiled/" if "tile" in c else "") + klass(c)
+        if k not in seen:
+            seen.add(k)
+            ctx.sample({k2: c[k2] for k2 in ("G", "ways", "roles", "exp", "variants", "tile") if k2 in c}, cap=10)
     ctx.assumptions = [
         "grid 0..G (G=4, thorough also 5), <= 3 catalogue rings and <= 26 segments per case; embeddings into Locations are affine with "
         "positive factors (1e-3 degree steps, 3x7 units below +2^29, unit steps above -2^29, the whole +-2^29 range, around 0/0)",
@@ -286,15 +343,64 @@ def run(ctx):
         "'ring segments = input segments' this decides region equality exactly for the catalogue's shapes",
         "a segment end in the interior of another segment (no node there) counts as crossing, as in the library",
         "problem counts (intersections = crossing/overlapping pairs, open ring ends = odd points, touching points = points of degree >= 4, "
-        "wrong roles) are compared exactly; which of several copies of a segment survives is left open (range for wrong roles)"]
+        "wrong roles) are compared exactly; which of several copies of a segment survives is left open (range for wrong roles)",
+        "tiled cases: chains of up to 101 copies of a TLC-chosen motif (<= 100 touching points), judged copy by copy (TileTheorem)"]
+
+
+def selftest(ctx):
+    """Binding of the oracle: observations of the real assembler are spoiled one field at a time and TLC must name the
+    violated requirement; the unspoiled observation must be accepted."""
+    import copy
+    nj, nw = par_jvms()
+    r = vlib.tlc_ok(vlib.tlc("AreaGrid", "GenAreaGrid7N.cfg", workers=nw, simulate=max(1, 120 // nw), depth=600, seed=ctx.seed,
+                             timeout=600, tag="selftest_gen", keep_out=False), "selftest export")
+    cases = decorate(ctx, r.cases, "st")
+    for k, c in enumerate(cases):
+        c["variants"] = ["rel/pr/a/s", "rel/def/c/u"]
+    res = run_real(ctx, cases)
+    recs = [x for c in cases for x in records_of(c, res[c["id"]])]
+    good = [x for x in recs if x["exp"]["valid"] and x["rings"]]
+    nested = [x for x in good if x["rings"][0]["inn"]]
+    bad = [x for x in recs if not x["exp"]["valid"] and x["exp"]["ncross"]]
+    if not good or not nested or not bad:
+        raise vlib.ModelFailure("selftest: export lacks a plain, a nested or a crossing case")
+    out, want = [], {}
+
+    def add(rec, name, f, expect):
+        rec = copy.deepcopy(rec)
+        f(rec)
+        rec["id"] = rec["grp"] = name
+        out.append(rec)
+        want[name] = expect
+    g, n, b = good[0], nested[0], bad[0]
+    add(g, "unspoiled", lambda x: None, None)
+    add(n, "unspoiled-nested", lambda x: None, None)
+    add(b, "unspoiled-crossing", lambda x: None, None)
+    add(g, "outer-reversed", lambda x: x["rings"][0]["pts"].reverse(), "orient")
+    add(n, "inner-reversed", lambda x: x["rings"][0]["inn"][0].reverse(), "orient")
+    add(g, "ring-not-closed", lambda x: x["rings"][0]["pts"].pop(), "closed")
+    add(g, "point-repeated", lambda x: x["rings"][0]["pts"].insert(1, x["rings"][0]["pts"][1]), "duppoint")
+    add(n, "inner-dropped", lambda x: x["rings"][0]["inn"].pop(), "region")
+    add(n, "inner-made-outer", lambda x: x["rings"].append({"pts": x["rings"][0]["inn"].pop()[::-1], "inn": []}), "region")
+    add(g, "no-rings", lambda x: x.update(rings=[]), "not_assembled")
+    add(g, "returned-false", lambda x: x["runs"][0].update(ret=False), "not_assembled")
+    add(g, "touching-miscounted", lambda x: x["runs"][0]["st"].update(touching_rings=x["runs"][0]["st"]["touching_rings"] + 1), "count_touch")
+    add(b, "area-from-crossing-ways", lambda x: x.update(rings=g["rings"]), "wrong_area")
+    add(b, "intersections-miscounted", lambda x: x["runs"][0]["st"].update(intersections=0), "count_intersections")
+    rc = 0
+    for rec, fails in judge(ctx, out, "selftest"):
+        w = want[rec["id"]]
+        ok = (fails == []) if w is None else (w in fails)
+        vlib.log("selftest %-26s TLC says %-40s %s" % (rec["id"], fails, "ok" if ok else "UNEXPECTED (wanted %s)" % w))
+        if not ok:
+            rc = 2
+    return rc
 
 
 def replay(ctx, path):
     with open(path) as fh:
         d = json.load(fh)
     cases = d["case"]["cases"]
-    for c in cases:
-        c["variants"] = sorted(set(c["variants"]) | set(d["case"].get("variants", [])))
     n = process(ctx, cases, "replay")
     ctx.traces = len(cases)
     ctx.evaluations = n
